@@ -60,19 +60,32 @@ pub proof fn lemma_cfg_inv_add_block<'a>(st: CfgSt<'a>, subs: Map<Tid, Term<Sub>
 
 pub proof fn lemma_cfg_inv_edge<'a>(st: CfgSt<'a>, subs: Map<Tid, Term<Sub>>, src: NodeIndex, dst: NodeIndex, w: Edge<'a>)
     requires cfg_inv(st, subs), src.i < st.nodes.len(), dst.i < st.nodes.len(),
+        // the new edge connects the node kinds its label promises
+        cfg_edge_shape(st.nodes, CfgEdge { src, dst, w }),
     ensures cfg_inv(cfg_edge(st, src, dst, w), subs), cfg_grows(st, cfg_edge(st, src, dst, w)),
 {
     let s2 = cfg_edge(st, src, dst, w);
     assert forall |e: int| 0 <= e < s2.edges.len() implies (#[trigger] s2.edges[e]).src.i < s2.nodes.len() && s2.edges[e].dst.i < s2.nodes.len() by {
         if e < st.edges.len() { assert(s2.edges[e] == st.edges[e]); }
     }
+    assert forall |e: int| 0 <= e < s2.edges.len() implies cfg_edge_shape(s2.nodes, #[trigger] s2.edges[e]) by {
+        if e < st.edges.len() { assert(s2.edges[e] == st.edges[e]); } else { assert(s2.edges[e] == CfgEdge { src, dst, w }); }
+    }
 }
 
 pub proof fn lemma_cfg_inv_node<'a>(st: CfgSt<'a>, subs: Map<Tid, Term<Sub>>, w: Node<'a>)
-    requires cfg_inv(st, subs), cfg_node_ok(subs, w),
+    requires cfg_inv(st, subs), cfg_node_ok(subs, w), cfg_node_shape(w),
     ensures cfg_inv(cfg_node(st, w), subs), cfg_grows(st, cfg_node(st, w)),
 {
     let s2 = cfg_node(st, w);
+    assert forall |e: int| 0 <= e < s2.edges.len() implies cfg_edge_shape(s2.nodes, #[trigger] s2.edges[e]) by {
+        assert(cfg_edge_shape(st.nodes, st.edges[e]));
+        assert(s2.nodes[st.edges[e].src.i as int] == st.nodes[st.edges[e].src.i as int]);
+        assert(s2.nodes[st.edges[e].dst.i as int] == st.nodes[st.edges[e].dst.i as int]);
+    }
+    assert forall |n: int| 0 <= n < s2.nodes.len() implies cfg_node_shape(#[trigger] s2.nodes[n]) by {
+        if n < st.nodes.len() { assert(s2.nodes[n] == st.nodes[n]); }
+    }
     assert forall |k: (Tid, Tid)| #[trigger] s2.jt.contains_key(k) implies cfg_pair_ok(s2.nodes, k, s2.jt[k]) by {
         assert(cfg_pair_ok(st.nodes, k, st.jt[k]));
     }
@@ -103,7 +116,7 @@ pub proof fn lemma_cfg_inv_ensure<'a>(st: CfgSt<'a>, subs: Map<Tid, Term<Sub>>, 
 }
 
 pub proof fn lemma_cfg_inv_intra<'a>(st: CfgSt<'a>, subs: Map<Tid, Term<Sub>>, source: NodeIndex, tid: Tid, jump: &'a Term<Jmp>, uc: Option<&'a Term<Jmp>>)
-    requires cfg_inv(st, subs), st.nodes.len() + 1 <= usize::MAX, cfg_is_end(st, source), cfg_has_block(subs, tid),
+    requires cfg_inv(st, subs), st.nodes.len() + 1 <= usize::MAX, cfg_is_end(st, source), cfg_has_block(subs, tid), cfg_untaken_ok(uc),
     ensures
         cfg_inv(cfg_intra(st, subs, source, tid, jump, uc), subs),
         cfg_grows(st, cfg_intra(st, subs, source, tid, jump, uc)),
@@ -112,6 +125,7 @@ pub proof fn lemma_cfg_inv_intra<'a>(st: CfgSt<'a>, subs: Map<Tid, Term<Sub>>, s
     assert(cfg_node_ok(subs, st.nodes[source.i as int]));
     lemma_cfg_inv_ensure(st, subs, tid, f);
     let (st1, t) = cfg_ensure(st, subs, tid, f);
+    assert(st1.nodes[source.i as int] == st.nodes[source.i as int]);
     lemma_cfg_inv_edge(st1, subs, source, t, Edge::Jump(jump, uc));
 }
 
@@ -188,7 +202,7 @@ pub proof fn lemma_cfg_inv_jump_edge<'a>(st: CfgSt<'a>, subs: Map<Tid, Term<Sub>
     requires
         cfg_inv(st, subs), cfg_is_end(st, source),
         st.nodes.len() + 3 <= usize::MAX,
-        cfg_jump_targets_exist(subs, *cfg_blk(st.nodes[source.i as int]), *jump),
+        cfg_jump_targets_exist(subs, *cfg_blk(st.nodes[source.i as int]), *jump), cfg_untaken_ok(uc),
         // (the BranchInd case is a loop of add_intraprocedural_edge calls: add_indirect_jumps proves it step by step)
         !(jump.term is BranchInd),
         jump.term is Call ==> cfg_has_call(*cfg_blk(st.nodes[source.i as int])),
@@ -229,7 +243,7 @@ pub proof fn lemma_cfg_call_term<'a>(b: &'a Term<Blk>, j: int)
 }
 
 pub proof fn lemma_cfg_inv_call_return_step<'a>(st: CfgSt<'a>, subs: Map<Tid, Term<Sub>>, f_ret: &'a Term<Sub>, rs: NodeIndex, cn: NodeIndex, rn: NodeIndex)
-    requires cfg_inv(st, subs), st.nodes.len() + 1 <= usize::MAX, rs.i < st.nodes.len(), cn.i < st.nodes.len(), rn.i < st.nodes.len(),
+    requires cfg_inv(st, subs), st.nodes.len() + 1 <= usize::MAX, cfg_is_return_end(st, rs), cfg_ret_ok(st.nodes, (cn, rn)),
     ensures
         cfg_inv(cfg_call_return_1(st, f_ret, rs, cn, rn), subs),
         cfg_grows(st, cfg_call_return_1(st, f_ret, rs, cn, rn)),
